@@ -147,12 +147,64 @@ def _to_symbolic_repr(model: Model) -> SymbolicRepr:
     return sym
 
 
+def _positional_fn(expr: sympy.Expr, args: list[str]) -> tuple[sympy.Basic, int]:
+    """What the definition emitted for (expr, args) computes of its positional arguments.
+
+    A name that is passed more than once stands for its first position.
+    """
+    positions: dict[sympy.Basic, sympy.Basic] = {}
+    for i, arg in enumerate(args):
+        positions.setdefault(sympy.Symbol(arg), sympy.Symbol(f"__arg{i}__"))
+    return expr.xreplace(positions), len(args)
+
+
+def _register_fn(
+    functions: dict[str, tuple[sympy.Expr, list[str]]],
+    fn_name: str,
+    expr: sympy.Expr,
+    args: list[str],
+) -> str:
+    """Store a function definition and return the name it is emitted under.
+
+    One Python function may serve several components with different arguments.
+    The definitions are called by position, so they are interchangeable and share one
+    name. A different function that happens to have the same name gets a fresh name
+    instead of silently replacing the earlier definition.
+    """
+    positional = _positional_fn(expr, args)
+    name = fn_name
+    i = 1
+    while name in functions and _positional_fn(*functions[name]) != positional:
+        name = f"{fn_name}_{i}"
+        i += 1
+    functions[name] = (expr, args)
+    return name
+
+
+def _parameter_names(args: list[str]) -> list[str]:
+    """Names of the parameters of an emitted definition.
+
+    A model name that is passed more than once keeps its name at the first position,
+    the later positions get unused names (a repeated parameter is a SyntaxError).
+    """
+    names: list[str] = []
+    for arg in args:
+        name = arg
+        i = 1
+        while name in names or (name != arg and name in args):
+            name = f"{arg}_{i}"
+            i += 1
+        names.append(name)
+    return names
+
+
 def _codegen_variable(
     k: str, var: SymbolicVariable, functions: dict[str, tuple[sympy.Expr, list[str]]]
 ) -> str:
     if isinstance(init := var.value, SymbolicFn):
-        fn_name = f"init_{init.fn_name}"
-        functions[fn_name] = (init.expr, init.args)
+        fn_name = _register_fn(
+            functions, f"init_{init.fn_name}", init.expr, init.args
+        )
         return f"""        .add_variable(
             {k!r},
             initial_value=InitialAssignment(fn={fn_name}, args={init.args!r}),
@@ -168,8 +220,9 @@ def _codegen_parameter(
     k: str, par: SymbolicParameter, functions: dict[str, tuple[sympy.Expr, list[str]]]
 ) -> str:
     if isinstance(init := par.value, SymbolicFn):
-        fn_name = f"init_{init.fn_name}"
-        functions[fn_name] = (init.expr, init.args)
+        fn_name = _register_fn(
+            functions, f"init_{init.fn_name}", init.expr, init.args
+        )
         return f"""        .add_parameter(
             {k!r},
             value=InitialAssignment(fn={fn_name}, args={init.args!r}),
@@ -206,11 +259,11 @@ def generate_mxlpy_code_from_symbolic_repr(
     # Derived
     derived_source = []
     for k, fn in model.derived.items():
-        functions[fn.fn_name] = (fn.expr, fn.args)
+        fn_name = _register_fn(functions, fn.fn_name, fn.expr, fn.args)
         derived_source.append(
             f"""        .add_derived(
                 {k!r},
-                fn={fn.fn_name},
+                fn={fn_name},
                 args={fn.args},
             )"""
         )
@@ -219,13 +272,17 @@ def generate_mxlpy_code_from_symbolic_repr(
     reactions_source = []
     for k, rxn in model.reactions.items():
         fn = rxn.fn
-        functions[fn.fn_name] = (fn.expr, fn.args)
+        rxn_fn_name = _register_fn(functions, fn.fn_name, fn.expr, fn.args)
 
         stoichiometry: list[str] = []
         for var, stoich in rxn.stoichiometry.items():
             if isinstance(stoich, SymbolicFn):
-                fn_name = f"{k}_stoich_{stoich.fn_name}"
-                functions[fn_name] = (stoich.expr, stoich.args)
+                fn_name = _register_fn(
+                    functions,
+                    f"{k}_stoich_{stoich.fn_name}",
+                    stoich.expr,
+                    stoich.args,
+                )
                 stoichiometry.append(
                     f""""{var}": Derived(fn={fn_name}, args={stoich.args!r})"""
                 )
@@ -236,7 +293,7 @@ def generate_mxlpy_code_from_symbolic_repr(
         reactions_source.append(
             f"""        .add_reaction(
                 "{k}",
-                fn={fn.fn_name},
+                fn={rxn_fn_name},
                 args={fn.args},
                 stoichiometry={{{",".join(stoichiometry)}}},
             )"""
@@ -246,7 +303,7 @@ def generate_mxlpy_code_from_symbolic_repr(
 
     # Combine all the sources
     functions_source = "\n\n".join(
-        sympy_to_python_fn(fn_name=name, args=args, expr=expr)
+        sympy_to_python_fn(fn_name=name, args=_parameter_names(args), expr=expr)
         for name, (expr, args) in functions.items()
     )
     source = [
